@@ -143,8 +143,14 @@ class AlarmTime:
 
         If the alarm has been snoozed, this can differ from the TRIGGER property.
         """
-        if self._snooze_until is not None and self._snooze_until > self._trigger:
-            return self._snooze_until
+        if self._snooze_until is not None:
+            if getattr(self._trigger, "tzinfo", None) is None:
+                raise LocalTimezoneMissing(
+                    "A local timezone is required to compare the snooze time with the trigger. "
+                    "Use Alarms.set_local_timezone()."
+                )
+            if self._snooze_until > self._trigger:
+                return self._snooze_until
         return self._trigger
 
 
